@@ -74,6 +74,12 @@ int slu_verif_ienv[8] = {0, 0, 0, 0, 0, 0, 0, 0};
 void (*slu_verif_pivot_hook)(int phase, int dtype, int jcol, double u, int usepr,
 			     int pivrow, int diagind, int ncand, const int_t *rows,
 			     const void *vals, int info) = 0;
+/* the same for ilu_[sdcz]pivotL */
+void (*slu_verif_ilu_pivot_hook)(int phase, int dtype, int jcol, double u, int usepr,
+				 int pivrow, int diagind, int milu, const void *drop_sum,
+				 double fill_tol, int ncand, const int_t *rows,
+				 const void *vals, const int *marker, const int *swap,
+				 int n, int info) = 0;
 #endif
 
 int
